@@ -71,6 +71,7 @@ func DedupeConstBlocks(src []byte) ([]byte, int, error) {
 
 var pkgClause = regexp.MustCompile(`(?m)^package\s+\w+`)
 var useDirective = regexp.MustCompile(`(?m)^//vf:use\s+(\w+)`)
+var testsDirective = regexp.MustCompile(`(?m)^//vf:tests\s+(.+)$`)
 
 // BuildOverlay computes the overlay: normalised common.go plus harness files.
 // harnessRoot mirrors the module layout: <harnessRoot>/<rel pkg dir>/zz_vf_*.go.
@@ -116,6 +117,17 @@ func BuildOverlay(repoSrc, harnessRoot, apiFile string, only map[string]bool) (m
 			}
 			pcl := pkgClause.Find(src)
 			ov[filepath.Join(repoSrc, rel, "zz_vf_spec_"+string(m[1])+".go")] = pkgClause.ReplaceAll(ssrc, pcl)
+		}
+		// the package's own test files, made part of the package under another name so that the
+		// engine can run the repo's tests (//vf:tests a_test.go b_test.go); in-package tests only
+		for _, m := range testsDirective.FindAllSubmatch(src, -1) {
+			for _, tf := range strings.Fields(string(m[1])) {
+				tsrc, err := os.ReadFile(filepath.Join(repoSrc, rel, tf))
+				if err != nil {
+					return fmt.Errorf("%s: //vf:tests %s: %v", p, tf, err)
+				}
+				ov[filepath.Join(repoSrc, rel, "zz_vf_t_"+strings.TrimSuffix(tf, "_test.go")+".go")] = tsrc
+			}
 		}
 		// api file with the package clause of this harness
 		pc := pkgClause.Find(src)
